@@ -75,6 +75,16 @@ func Pools(quick bool) []PoolDef {
 	hostPats = append(hostPats, "/", "/a", "/a/", "/{p0}", "/*{c0}")
 	hosts := []string{"", "a.b", "a.b:80", "a.b.", "a.b.:80", "b.a.b.:8080", "b.a.b", "x.b", "a.x", "ab.b", "a.b.c", "c.a.b", "a.bb", "aa.b", "b", "a", ".b", "a.", "1.2.3.4", "[::1]:80", "A.B"}
 	pools = append(pools, PoolDef{Name: "host", Patterns: hostPats, Paths: rsx.GenPaths([]string{"a", "b"}, 2), Hosts: hosts, K: k - 1 + boolInt(quick)*0})
+	// host2 pool: several hostname parameters inside one radix node, with and without static labels after them
+	var host2Pats []string
+	for _, h := range []string{"{h}.{t}.b", "{h}.{t}", "a.{h}.{t}.b", "{h}.a.{t}", "{h}.{t}.b.a", "{h}.{t}.{u}"} {
+		for _, p := range []string{"/", "/a", "/{p0}"} {
+			host2Pats = append(host2Pats, h+p)
+		}
+	}
+	host2Pats = append(host2Pats, "/", "/a", "/{p0}")
+	hosts2 := []string{"", "x.y.b", "x.y", "a.x.y.b", "x.a.y", "x.y.b.a", "x.b", "x.y.b:80", "x..b", ".y.b", "x.y.c", "x.y.b.", "x.y.z", "b", "x.y.", "x.y.b.a.c"}
+	pools = append(pools, PoolDef{Name: "host2", Patterns: host2Pats, Paths: rsx.GenPaths([]string{"a", "b"}, 1), Hosts: hosts2, K: k - 1})
 	// fan-out pools: N static siblings under "/" and under a parameter, N around the 50-child switch
 	for _, n := range []int{49, 50, 51, 52} {
 		if quick && n != 51 {
